@@ -38,6 +38,7 @@ func init() {
 			{"C01.worker-errors", "a failed copy, read, write or chunk fetch fails the assembly worker", 1, c01WorkerErrors},
 			{"C01.validate-marks-invalid", "every seed failure reported by Plan.Validate marks that seed invalid (re-planning terminates)", 2, c01MarksInvalid},
 			{"C01.derived-state", "FileSeed.pos is rebuilt from scratch whenever FileSeed.index is replaced", 2, c01DerivedState},
+			{"C01.workers-started", "every loop that starts pool workers starts one per unit of the worker count (none is skipped for n == 1)", 6, func(c *Ctx) { c.workersStarted() }},
 			{"C01.errors-not-dropped", "no error of the operations this property depends on is dropped", 1, func(c *Ctx) { c.errorsNotDropped("C01") }},
 		},
 	})
@@ -133,7 +134,11 @@ func c01SegmentBounds(c *Ctx) {
 // hashEqualEdges returns the edges on which compare(Digest.Sum(..), <chunk>.ID) is equal.
 func hashEqualEdges(fn *ssa.Function) (eq, neq map[edge]bool, sites []*ssa.If) {
 	eq, neq = map[edge]bool{}, map[edge]bool{}
-	isSum := originHas("call:(desync.HashAlgorithm).Sum#0")
+	// the digest computed here and now - not a value that may also come from somewhere else (a
+	// memo table keyed by the expected ID compares the ID with itself)
+	isSum := func(v ssa.Value) bool {
+		return onlyOrigins(v, func(o string) bool { return strings.Contains(o, "call:(desync.HashAlgorithm).Sum#0") })
+	}
 	isID := func(v ssa.Value) bool {
 		return hasOrigin(v, func(o string) bool { return o == "field:IndexChunk.ID" || o == "elem:field:IndexChunk.ID" })
 	}
@@ -181,7 +186,11 @@ func hashEqualEdges(fn *ssa.Function) (eq, neq map[edge]bool, sites []*ssa.If) {
 
 // hashEqualAcc: the edge on which Digest.Sum(..) equals the chunk's ID.
 func hashEqualAcc(iff *ssa.If) (bool, bool) {
-	isSum := originHas("call:(desync.HashAlgorithm).Sum#0")
+	// the digest computed here and now - not a value that may also come from somewhere else (a
+	// memo table keyed by the expected ID compares the ID with itself)
+	isSum := func(v ssa.Value) bool {
+		return onlyOrigins(v, func(o string) bool { return strings.Contains(o, "call:(desync.HashAlgorithm).Sum#0") })
+	}
 	isID := func(v ssa.Value) bool {
 		return hasOrigin(v, func(o string) bool { return o == "field:IndexChunk.ID" || o == "elem:field:IndexChunk.ID" })
 	}
